@@ -1,5 +1,7 @@
 #!/venv/bin/python
-"""F15 (C17, noted in passing by a round-6 sub-agent): a peer whose version message is the empty dict `{}` (it announces nothing, so it
+"""F20: `python tools/repro_F15.py <json>` runs the same two orders with another peer versions object, e.g. '{"can-dilate": null}' or
+'{"can-dilate": [["ged"]]}' (exit 1 unless both orders report OldPeerCannotDilateError).
+F15 (C17, noted in passing by a round-6 sub-agent): a peer whose version message is the empty dict `{}` (it announces nothing, so it
 cannot dilate) and whose versions arrive BEFORE the application calls dilate(): Dilator.got_wormhole_versions parks `{}` in
 _pending_wormhole_versions, and dilate() tests `if self._pending_wormhole_versions:` - `{}` is falsy, so the Manager never hears the
 versions, stays WAITING, and a subchannel connect() hangs instead of failing with OldPeerCannotDilateError.  With dilate() first and
@@ -17,6 +19,17 @@ from wormhole._dilation.manager import Dilator, OldPeerCannotDilateError
 DILATION_VERSIONS = ["ged"]
 
 
+import json
+VERSIONS = json.loads(sys.argv[1]) if len(sys.argv) > 1 else {}
+
+
+def _give(dil):
+    try:
+        dil.got_wormhole_versions(VERSIONS)
+    except Exception as e:
+        print("   got_wormhole_versions raised %r" % (e,))
+
+
 def run(versions_first):
     clock = Clock()
     eq = EventualQueue(clock)
@@ -26,11 +39,11 @@ def run(versions_first):
     dil = Dilator(clock, eq, coop, DILATION_VERSIONS)
     dil.wire(send, term)
     if versions_first:
-        dil.got_wormhole_versions({})
+        _give(dil)
     dil.got_key(b"k" * 32)
     api = dil.dilate()
     if not versions_first:
-        dil.got_wormhole_versions({})
+        _give(dil)
     out = []
     d = api.connector_for("proto").connect(Factory.forProtocol(Protocol))
     d.addCallbacks(lambda p: out.append("connected"), lambda f: out.append(f.type.__name__))
@@ -42,6 +55,7 @@ def run(versions_first):
 
 a = run(versions_first=False)
 b = run(versions_first=True)
-print("dilate() first, then versions {}:", a)
-print("versions {} first, then dilate():", b)
+print("peer versions: %r" % (VERSIONS,))
+print("dilate() first, then versions:", a)
+print("versions first, then dilate():", b)
 raise SystemExit(0 if a == b == ["OldPeerCannotDilateError"] else 1)
